@@ -281,7 +281,14 @@ func (c *DoHClient) Do(method string, wire []byte, hdr map[string]string) HTTPRe
 			req.Header.Set("Accept", "application/dns-message")
 		}
 	} else {
-		req, err = http.NewRequest(method, c.URL, bytes.NewReader(wire))
+		if method == "POST-CHUNKED" { // no Content-Length: the body travels with Transfer-Encoding: chunked (HTTP/1.1)
+			req, err = http.NewRequest(http.MethodPost, c.URL, io.NopCloser(bytes.NewReader(wire)))
+			if err == nil {
+				req.ContentLength = -1
+			}
+		} else {
+			req, err = http.NewRequest(method, c.URL, bytes.NewReader(wire))
+		}
 		if err == nil {
 			req.Header.Set("Content-Type", "application/dns-message")
 		}
